@@ -218,13 +218,13 @@ func cmdReplay(args []string) int {
 // ---- master ---------------------------------------------------------------------------------------------
 
 type knownFinding struct {
-	Property   string `json:"property"`
-	Match      string `json:"match"`       // substring every oracle message of the violation must contain
+	Property   string   `json:"property"`
+	Match      string   `json:"match"`               // substring every oracle message of the violation must contain
 	MatchAll   []string `json:"match_all,omitempty"` // further substrings, all required
-	ExecStatus string `json:"exec_status"` // execution status of the failing run (ok, deadlock, crash)
-	CrashMatch string `json:"crash_match,omitempty"`
-	What       string `json:"what"`
-	Status     string `json:"status"` // "known" or "fixed" (fixed entries suppress nothing)
+	ExecStatus string   `json:"exec_status"`         // execution status of the failing run (ok, deadlock, crash)
+	CrashMatch string   `json:"crash_match,omitempty"`
+	What       string   `json:"what"`
+	Status     string   `json:"status"` // "known" or "fixed" (fixed entries suppress nothing)
 }
 
 // knownMatch returns the finding that explains v completely (every message), or nil.
